@@ -91,6 +91,15 @@ type Case struct {
 	// SCT, if set, is the content-type of the RESPONSE when it differs from the request's ("-" = none):
 	// the error page of a gateway answering a gRPC request.
 	SCT string `json:"sct,omitempty"`
+	// Info: number of informational (1xx) HEADERS the server sends before the response HEADERS
+	// (100 Continue, 103 Early Hints). Needs the request direction's adapter (it announces gRPC).
+	Info int `json:"info,omitempty"`
+	// Copy: the pass-through processor forwards a copy of every message (append([]byte(nil), data...))
+	// instead of the slice it was given - nil for an empty message.
+	Copy bool `json:"copy,omitempty"`
+	// Late (relay-end-to-end only): the receiving endpoints return flow-control credit only once the
+	// relay has used up the initial window.
+	Late bool `json:"late,omitempty"`
 }
 
 // ctFor is the content-type announced in one direction.
@@ -523,6 +532,7 @@ func (s *sinkRec) PushPromise(uint32, []hpack.HeaderField) error {
 
 // procRec is the stream processor: it records what it is shown and passes it on.
 type procRec struct {
+	copy bool
 	next mgrpc.Processor
 	ev   []event
 }
@@ -533,6 +543,9 @@ func (p *procRec) Header(h []hpack.HeaderField, end bool, prio http2.PriorityPar
 }
 func (p *procRec) Message(data []byte, end bool) error {
 	p.ev = append(p.ev, event{kind: 'M', data: append([]byte{}, data...), nil_: data == nil, end: end})
+	if p.copy {
+		data = append([]byte(nil), data...)
+	}
 	return p.next.Message(data, end)
 }
 
@@ -600,6 +613,15 @@ var trailerFields = []hpack.HeaderField{{Name: "grpc-status", Value: "0"}, {Name
 
 func opsFor(c Case, dir string, d Dir, b *built) []op {
 	var ops []op
+	if dir == "s" && c.Procs != "s" {
+		for i := 0; i < c.Info && i < 3; i++ {
+			if i%2 == 0 {
+				ops = append(ops, op{kind: 'H', hdr: []hpack.HeaderField{{Name: ":status", Value: "100"}}})
+			} else {
+				ops = append(ops, op{kind: 'H', hdr: []hpack.HeaderField{{Name: ":status", Value: "103"}, {Name: "link", Value: "</style.css>; rel=preload"}}})
+			}
+		}
+	}
 	first := op{kind: 'H', hdr: headersFor(c, dir, b)}
 	if b.end == "last" && len(b.frames) == 0 {
 		first.end = true // END_STREAM on HEADERS: a stream without any DATA
@@ -661,11 +683,11 @@ func newFactory(cur **streamRun) h2.StreamProcessorFactory {
 		s := *cur
 		var pc, ps mgrpc.Processor
 		if s.c.Procs != "s" {
-			s.recC = &procRec{next: server}
+			s.recC = &procRec{next: server, copy: s.c.Copy}
 			pc = s.recC
 		}
 		if s.c.Procs != "c" {
-			s.recS = &procRec{next: client}
+			s.recS = &procRec{next: client, copy: s.c.Copy}
 			ps = s.recS
 		}
 		return pc, ps
@@ -1012,6 +1034,8 @@ func judge(c Case, dir string, b *built, ops []op, err error, sink *sinkRec, pro
 	case len(gotMsgs) == n+1 && b.bareEnd():
 		x := gotMsgs[n]
 		v.Addf("C11/passthrough/end-stream-on-empty-data-frame/fabricated-extra-message", "%s: %d messages went in and END_STREAM came on an empty DATA frame; the sink got %d messages, the extra one has flag %d and %d payload bytes", where, n, len(gotMsgs), x.flag, len(x.payload))
+	case len(gotMsgs) == n-1 && c.Copy && n > 0 && len(b.want[n-1].plain) == 0 && b.end == "last":
+		v.Addf("C11/passthrough/copying-processor-empty-last-message-with-end-stream/last-message-lost", "%s: %d messages went in, the last one empty and on the frame with END_STREAM; the pass-through processor forwards a copy of each message (nil for an empty one); only %d reached the sink", where, n, len(gotMsgs))
 	case len(gotMsgs) == n-1 && b.zeroLast():
 		v.Addf("C11/passthrough/zero-length-last-message-ends-data-frame/last-message-never-forwarded", "%s: %d messages went in, the last without payload bytes (end=%s); only %d reached the sink", where, n, b.end, len(gotMsgs))
 	default:
@@ -1151,6 +1175,17 @@ func classes(c Case) []string {
 	}
 	if c.Procs != "c" {
 		dirClasses(c, "s", c.S, add)
+	}
+	if c.Copy {
+		add("copying-processor")
+		for _, d := range []Dir{c.C, c.S} {
+			if b := build(d); len(b.want) > 0 && len(b.want[len(b.want)-1].plain) == 0 && b.end == "last" {
+				add("copying-processor-empty-last-message-with-end-stream")
+			}
+		}
+	}
+	if c.Info > 0 && c.Procs != "s" {
+		add("informational-response-headers")
 	}
 	if c.Procs != "" {
 		add("one-sided-processor")
@@ -1297,6 +1332,10 @@ func genCase(t *rapid.T) Case {
 	}
 	c.C = genDir(t, "c")
 	c.S = genDir(t, "s")
+	c.Copy = rapid.IntRange(0, 2).Draw(t, "copying_processor") == 0
+	if rapid.IntRange(0, 3).Draw(t, "informational") == 0 {
+		c.Info = rapid.IntRange(1, 2).Draw(t, "ninfo")
+	}
 	if isGRPC(c.CT) && rapid.IntRange(0, 7).Draw(t, "foreign_response") == 0 {
 		c.SCT = rapid.SampledFrom([]string{"text/html", "application/json", "text/plain", "-"}).Draw(t, "sct")
 		c.S.Plain = rapid.Bool().Draw(t, "sct_plain")
@@ -1320,7 +1359,7 @@ func genCase(t *rapid.T) Case {
 	return c
 }
 
-const ruleGen = "rapid draws per direction an encoding (absent/identity/gzip/deflate/snappy), 0..6 messages (sizes 0..70000, edge-biased; compressed flag; random/text/zero payloads; compressed by compress/gzip (1..3 members, optional empty last member, optional FEXTRA/FNAME/FCOMMENT), compress/flate at 4 levels or compress/zlib (the RFC 1950 wrapper grpc-core uses for deflate), snappy framing writer), a cut set of the length-prefixed byte stream (none, message boundaries, inside 5-byte prefixes, fixed frame size, random offsets, every byte), optional empty DATA frames, END_STREAM on the last DATA frame / a separate empty frame / trailers / absent; content-type application/grpc (mostly), +proto/+json, or non-gRPC; 1 in 8 gRPC requests is answered by a non-gRPC response (text/html etc., plain or framing-like body); in 3 of 4 cases extra regular header fields (grpc-accept-encoding, grpc-timeout, user-agent) and a drawn permutation of all regular fields (grpc-encoding before or after content-type); both directions interleaved, sequential or on two goroutines; processors on both or one direction. Non-trivial = gRPC stream with a cut inside a 5-byte prefix or inside a payload, or a compressed message, or a separate END_STREAM frame."
+const ruleGen = "rapid draws per direction an encoding (absent/identity/gzip/deflate/snappy), 0..6 messages (sizes 0..70000, edge-biased; compressed flag; random/text/zero payloads; compressed by compress/gzip (1..3 members, optional empty last member, optional FEXTRA/FNAME/FCOMMENT), compress/flate at 4 levels or compress/zlib (the RFC 1950 wrapper grpc-core uses for deflate), snappy framing writer), a cut set of the length-prefixed byte stream (none, message boundaries, inside 5-byte prefixes, fixed frame size, random offsets, every byte), optional empty DATA frames, END_STREAM on the last DATA frame / a separate empty frame / trailers / absent; content-type application/grpc (mostly), +proto/+json, or non-gRPC; 1 in 8 gRPC requests is answered by a non-gRPC response (text/html etc., plain or framing-like body); in 3 of 4 cases extra regular header fields (grpc-accept-encoding, grpc-timeout, user-agent) and a drawn permutation of all regular fields (grpc-encoding before or after content-type); both directions interleaved, sequential or on two goroutines; processors on both or one direction, forwarding the slice they were given or (1 in 3) a copy of it; 1 in 4 responses is preceded by one or two 1xx HEADERS (100, 103). Non-trivial = gRPC stream with a cut inside a 5-byte prefix or inside a payload, or a compressed message, or a separate END_STREAM frame."
 
 var propReframe = &kit.Prop[Case]{
 	ID: "C11", Name: "reframe", Rule: ruleGen,
@@ -1332,7 +1371,8 @@ var propReframe = &kit.Prop[Case]{
 		"non-grpc": 0.05, "zero-length-message": 0.1, "encodings-differ-by-direction": 0.2,
 		"interleaved-directions":                                    0.15,
 		"grpc-encoding-before-content-type-with-compressed-message": 0.1,
-		"gzip-multi-member":                                         0.03, "deflate-zlib-wrapped": 0.02, "response-of-grpc-request-is-not-grpc": 0.04,
+		"copying-processor":                                         0.2, "copying-processor-empty-last-message-with-end-stream": 0.02, "informational-response-headers": 0.1,
+		"gzip-multi-member": 0.03, "deflate-zlib-wrapped": 0.02, "response-of-grpc-request-is-not-grpc": 0.04,
 	},
 }
 
